@@ -18,6 +18,7 @@ CFG = {}
 UNITS = [('second', 'S', 1, True), ('minute', 'M', 60, True), ('hour', 'H', 3600, True), ('day', 'D', 86400, False),
          ('week', 'W', 604800, False), ('month', 'M', 2592000, False), ('year', 'Y', 31536000, False)]
 REF = datetime(2016, 11, 7, 12, 0, 0)
+REFS = [REF, datetime(2019, 6, 14, 10, 20, 37), datetime(2020, 2, 29, 23, 59, 59)]
 DATES = [date(1900, 1, 1), date(1999, 12, 31), date(2000, 1, 1), date(2000, 2, 29), date(2016, 1, 5), date(2016, 2, 7),
          date(2016, 11, 7), date(2016, 12, 31), date(2017, 1, 1), date(2020, 2, 28), date(2020, 3, 1), date(2099, 12, 31)]
 TIMES = [(0, 0), (0, 30), (8, 0), (9, 15), (11, 59), (12, 0), (13, 5), (15, 0), (17, 30), (23, 59)]
@@ -54,8 +55,9 @@ def fmt_time(t, layout):
 
 
 def check_range(ch, cls, q, typ, start, end):
-    got = dt.run('en-us', q, REF)
-    rec = {'query': q, 'reference': REF.isoformat(), 'expected': {'start': start, 'end': end}, 'observed': got}
+    ref = ch.pick('reference', REFS)          # absolute endpoints: the reference (incl. its seconds) must not matter
+    got = dt.run('en-us', q, ref)
+    rec = {'query': q, 'reference': ref.isoformat(), 'expected': {'start': start, 'end': end}, 'observed': got}
     if len(got) != 1 or (got[0][0], got[0][1]) != (0, len(q) - 1):
         ch.fail('%s|%s|%s..%s' % (cls, 'missing' if not got else 'span-or-split', start, end), rec)
         return
@@ -78,7 +80,7 @@ def check_range(ch, cls, q, typ, start, end):
     elif not dt._TRIPLE.match(v.get('timex') or ''):
         ch.fail('%s|timex-not-a-triple' % cls, rec)
     else:
-        ch.ok(case=('en-us', q, REF), outcome=cls, sample=rec)
+        ch.ok(case=('en-us', q, ref), outcome=cls, sample=rec)
 
 
 def body(ch):
